@@ -267,5 +267,110 @@ int main(int argc, char** argv) {
         total.n["evaluations"] = total.n["traces"];
         return done(0);
     }
+    if (a.mode == "values") {
+        // C01 (b): one record per file, every field x boundary value, alone and inside the full record; (c) long traces
+        typedef std::function<void(GenericQueryResponse&, int)> Set;
+        struct Field { const char* name; int nvar; Set set; std::function<void(GenericQueryResponse&)> clear; };
+        static const uint64_t U8[] = {0, 1, 23, 24, 255}, U16[] = {0, 23, 24, 255, 256, 65535}, U64[] = {0, 23, 24, 255, 256, 65535, 65536, 0xffffffffULL, 0x100000000ULL, 0x7fffffffffffffffULL, 0x8000000000000000ULL, 0xffffffffffffffffULL};
+        static const int64_t I64[] = {INT64_MIN, INT64_MIN + 1, -4294967297LL, -4294967296LL, -65537, -65536, -257, -256, -25, -24, -1, 0, 1, 23, 24, 255, 256, 65535, 65536, 4294967295LL, 4294967296LL, INT64_MAX};
+        static const size_t SL[] = {0, 1, 23, 24, 255, 256, 2047, 2048, 2049, 65534, 65535, 65536, 140000};
+        auto str = [](int v) { size_t n = SL[v % 13]; int k = v / 13; std::string s(n, k == 0 ? '\0' : k == 1 ? '\xff' : 'a'); if (k == 2) for (size_t i = 0; i < n; i++) s[i] = (char)(i * 7 + 3); return s; };
+        std::vector<Field> F;
+#define FU(fld, arr, T) F.push_back({#fld, (int)(sizeof(arr) / sizeof(arr[0])), [](GenericQueryResponse& g, int v) { g.fld = (T)arr[v]; }, [](GenericQueryResponse& g) { g.fld = boost::none; }});
+#define FS(fld) F.push_back({#fld, 39, [str](GenericQueryResponse& g, int v) { g.fld = str(v); }, [](GenericQueryResponse& g) { g.fld = boost::none; }});
+        F.push_back({"ts", 8, [](GenericQueryResponse& g, int v) { static const uint64_t S[] = {0, 1, 0x7fffffff, 0x80000000ULL, 0xffffffffULL, 0x100000000ULL, 9223372036853ULL, 9223372036854ULL}; g.ts = Timestamp(S[v], v == 7 ? 775806 : (v & 1) ? 999999 : 0); }, [](GenericQueryResponse& g) { g.ts = boost::none; }});
+        FS(client_ip) FU(client_port, U16, uint16_t) FU(transaction_id, U16, uint16_t) FS(server_ip) FU(server_port, U16, uint16_t) FU(qr_transport_flags, U8, QueryResponseTransportFlagsMask) FU(qr_type, U8, QueryResponseTypeValues)
+        FU(qr_sig_flags, U8, QueryResponseFlagsMask) FU(query_opcode, U8, uint8_t) FU(qr_dns_flags, U16, DNSFlagsMask) FU(query_rcode, U16, uint16_t)
+        F.push_back({"query_classtype", 4, [](GenericQueryResponse& g, int v) { ClassType c; c.type = v & 1 ? 65535 : 0; c.class_ = v & 2 ? 65535 : 0; g.query_classtype = c; }, [](GenericQueryResponse& g) { g.query_classtype = boost::none; }});
+        FU(query_qdcount, U16, uint16_t) FU(query_ancount, U16, uint16_t) FU(query_nscount, U16, uint16_t) FU(query_arcount, U16, uint16_t) FU(query_edns_version, U8, uint8_t) FU(query_udp_size, U16, uint16_t) FS(query_opt_rdata) FU(response_rcode, U16, uint16_t)
+        FU(client_hoplimit, U8, uint8_t) FU(response_delay, I64, int64_t) FS(query_name) FU(query_size, U64, std::size_t) FU(response_size, U64, std::size_t) FS(bailiwick) FU(processing_flags, U8, ResponseProcessingFlagsMask)
+        FS(asn) FS(country_code) FU(round_trip_time, I64, int64_t)
+#define FL(fld, q) F.push_back({#fld, 6, [str](GenericQueryResponse& g, int v) { std::vector<GenericResourceRecord> l; int n = v == 0 ? 1 : v == 1 ? 2 : v == 2 ? 40 : 1; for (int i = 0; i < n; i++) { GenericResourceRecord r = rr(v == 3 ? str(9 + 26) : std::string("\3abc\0", 5) + (i & 1 ? "x" : ""), v == 4 ? 65535 : i, v == 4 ? 65535 : 1); if (!q) { if (v != 5) r.ttl = v == 4 ? 4294967295u : (uint32_t)i; if (v & 1) r.rdata = v == 3 ? str(8) : std::string("rd"); } l.push_back(r); } g.fld = l; }, [](GenericQueryResponse& g) { g.fld = boost::none; }});
+        FL(query_questions, true) FL(query_answers, false) FL(query_authority, false) FL(query_additional, false) FL(response_questions, true) FL(response_answers, false) FL(response_authority, false) FL(response_additional, false)
+        struct Case { int f1, v1, f2, v2; int base; };   // base 0: empty record + field(s); base 1: full record with field(s) replaced; base 2: full record with field(s) removed
+        std::vector<Case> cases;
+        for (int f = 0; f < (int)F.size(); f++) { for (int v = 0; v < F[f].nvar; v++) { cases.push_back({f, v, -1, 0, 0}); cases.push_back({f, v, -1, 0, 1}); } cases.push_back({f, 0, -1, 0, 2}); }
+        for (int f = 0; f < (int)F.size(); f++) for (int g2 = f + 1; g2 < (int)F.size(); g2++) { if (!T && (f + g2) % 3) continue; cases.push_back({f, 0, g2, F[g2].nvar - 1, 0}); cases.push_back({f, 0, g2, 0, 2}); if (T) cases.push_back({f, F[f].nvar - 1, g2, 0, 1}); }
+        auto run_case = [&](const Case& c, Result& R) {
+            GenericQueryResponse g; if (c.base) g = P.qr[0];
+            if (c.base == 2) { F[c.f1].clear(g); if (c.f2 >= 0) F[c.f2].clear(g); } else { F[c.f1].set(g, c.v1); if (c.f2 >= 0) F[c.f2].set(g, c.v2); }
+            std::string rep = "f1=" + std::to_string(c.f1) + ";v1=" + std::to_string(c.v1) + ";f2=" + std::to_string(c.f2) + ";v2=" + std::to_string(c.v2) + ";base=" + std::to_string(c.base); set_note(rep);
+            BlockParameters bp; std::vector<BlockParameters> bps = {bp}; FilePreamble fp(bps); std::vector<std::string> outs;
+            { CdnsExporter e(fp, MemSink{&outs}, CborOutputCompression::NO_COMPRESSION); e.buffer_qr(g); e.buffer_qr(P.qr[1]); e.write_block(); }
+            GenericQueryResponse ex; model::Hints h; model::filter(g, h, ex);
+            std::string want = lib::dump(ex); std::string fname = std::string(F[c.f1].name) + (c.f2 >= 0 ? std::string("+") + F[c.f2].name : "");
+            R.count("traces"); R.count("nontrivial");
+            try { ref::RFile rf = ref::read_file(outs.at(0)); std::string got = rf.blocks.at(0).qrs.at(0); if (got != want) { size_t p = 0; while (p < got.size() && p < want.size() && got[p] == want[p]) p++; R.violation(std::string("values|independent-reader|") + F[c.f1].name, fname + ": file content differs from what was buffered at " + std::to_string(p) + ": ..." + got.substr(p > 20 ? p - 20 : 0, 70) + " vs ..." + want.substr(p > 20 ? p - 20 : 0, 70), rep); } }
+            catch (std::exception& e) { R.violation(std::string("values|invalid-output|") + F[c.f1].name, fname + ": " + e.what(), rep); }
+            try { std::istringstream is(outs.at(0)); CdnsReader rd(is); bool eof; CdnsBlockRead b = rd.read_block(eof); bool end; std::string got = lib::dump(b.read_generic_qr(end)); if (got != want) { size_t p = 0; while (p < got.size() && p < want.size() && got[p] == want[p]) p++; R.violation(std::string("values|library-reader|") + F[c.f1].name, fname + ": read back differs at " + std::to_string(p) + ": ..." + got.substr(p > 20 ? p - 20 : 0, 70) + " vs ..." + want.substr(p > 20 ? p - 20 : 0, 70), rep); } }
+            catch (std::exception& e) { R.violation(std::string("values|library-reader-throws|") + F[c.f1].name, fname + ": " + e.what(), rep); }
+            R.outcome(std::string(F[c.f1].name) + ":base" + std::to_string(c.base));
+        };
+        auto long_trace = [&](int kind, Result& R) {
+            std::string rep = "long=" + std::to_string(kind); set_note(rep);
+            BlockParameters bp; bp.storage_parameters.max_block_items = kind == 0 ? 100000 : 3; std::vector<BlockParameters> bps = {bp}; FilePreamble fp(bps); std::vector<std::string> outs; model::Exporter M({model::from(bp)});
+            int N = kind == 0 ? 3000 : 600;
+            { CdnsExporter e(fp, MemSink{&outs}, CborOutputCompression::NO_COMPRESSION);
+              for (int i = 0; i < N; i++) { GenericQueryResponse g = P.qr[i % 5]; g.client_ip = std::string("\x0a", 1) + std::string(1, (char)(i >> 16)) + std::string(1, (char)(i >> 8)) + std::string(1, (char)i); g.query_name = std::string("\5label", 6) + std::to_string(i * 7919); g.transaction_id = i & 0xffff; g.ts = Timestamp(1600000000 + i / 7, (i * 142857) % 1000000);
+                  e.buffer_qr(g); M.buffer_qr(g, nullptr); if (i % 11 == 0) { e.buffer_aec(P.aec[i % 3]); M.buffer_aec(P.aec[i % 3], nullptr); } if (i % 13 == 0) { GenericMalformedMessage m = P.mm[0]; m.client_port = i & 0xffff; e.buffer_mm(m); M.buffer_mm(m, nullptr); } }
+              e.write_block(); M.write_block(); }
+            std::string expect = "P{" + M.outs[0].preamble + "}"; for (auto& b : M.outs[0].blocks) expect += "|B{" + b.dump() + "}"; expect += "|eof";
+            R.count("traces"); R.count("nontrivial");
+            std::string ld = lib::file_dump(lib::read_bytes(outs.at(0))), rd; try { rd = lib::file_dump(ref::read_file(outs.at(0))); } catch (std::exception& e) { rd = e.what(); }
+            if (ld != expect) R.violation("values|long-trace|library-reader", "long trace " + std::to_string(kind) + " (" + std::to_string(outs[0].size()) + " bytes): library reader differs from what was buffered", rep);
+            if (rd != expect) R.violation("values|long-trace|independent-reader", "long trace " + std::to_string(kind) + ": independent reader differs from what was buffered: " + rd.substr(0, 100), rep);
+            R.outcome("long" + std::to_string(kind)); R.sample(rep + ";records=" + std::to_string(N) + ";bytes=" + std::to_string(outs[0].size()) + ";blocks=" + std::to_string(M.outs[0].blocks.size()));
+        };
+        if (!a.replay.empty()) { std::string s = slurp(a.replay); Case c; int lk; Pool rp(1, 120);
+            rp.run(1, [&](uint64_t, Result& R) { if (sscanf(s.c_str(), "long=%d", &lk) == 1) long_trace(lk, R); else if (sscanf(s.c_str(), "f1=%d;v1=%d;f2=%d;v2=%d;base=%d", &c.f1, &c.v1, &c.f2, &c.v2, &c.base) == 5) run_case(c, R); },
+                   [&](uint64_t, const std::string& d, Result& R) { R.violation("values|" + crash_key(d), d.substr(0, 1500), s); }, total); return done(total.viol.empty() ? 0 : 1); }
+        uint64_t chunk = 16, ntasks = (cases.size() + chunk - 1) / chunk + 2;
+        Pool pool(a.jobs, 300);
+        pool.run(ntasks, [&](uint64_t ti, Result& R) {
+            if (a.expired()) { R.deadline_hit = true; return; }
+            if (ti >= ntasks - 2) { long_trace((int)(ti - (ntasks - 2)), R); return; }
+            for (uint64_t i = ti * chunk; i < std::min<uint64_t>(cases.size(), (ti + 1) * chunk); i++) run_case(cases[i], R);
+            if (ti % 61 == 0) R.sample(std::string("field ") + F[cases[ti * chunk].f1].name + " variant " + std::to_string(cases[ti * chunk].v1) + " base " + std::to_string(cases[ti * chunk].base));
+        }, [&](uint64_t, const std::string& d, Result& R) { R.violation("values|" + crash_key(d), d.substr(0, 1500), pool.last_note); }, total);
+        total.n["evaluations"] = total.n["traces"];
+        return done(0);
+    }
+    if (a.mode == "align") {
+        // every alignment of the output stream relative to the encoder's 2 KiB staging buffer: a padding string of every length 0..2100
+        // shifts (1) a record stream with 64-bit values and (2) a preamble with text members across every buffer position
+        auto nonperiodic = [](size_t n, unsigned salt) { std::string x(n, 0); uint32_t v = 2463534242u + salt; for (size_t i = 0; i < n; i++) { v ^= v << 13; v ^= v >> 17; v ^= v << 5; x[i] = (char)('a' + v % 26); } return x; };
+        auto run_pad = [&](int kind, size_t pad, Result& R) {
+            std::string rep = "kind=" + std::to_string(kind) + ";pad=" + std::to_string(pad); set_note(rep);
+            BlockParameters bp; bp.storage_parameters.max_block_items = 100000;
+            if (kind == 1) { CollectionParameters c; c.filter = nonperiodic(pad, 1); c.host_id = std::string("probe-07.anycast-fra.example.net"); c.generator_id = nonperiodic(40, 2); c.interfaces = {nonperiodic(17, 3), nonperiodic(33, 4)}; c.server_address = {nonperiodic(16, 5)}; bp.collection_parameters = c;
+                bp.storage_parameters.sampling_method = nonperiodic(29, 6); bp.storage_parameters.anonymization_method = nonperiodic(31, 7); bp.storage_parameters.max_block_items = 0xffffffffffffULL; bp.storage_parameters.ticks_per_second = 0x100000000ULL; }
+            std::vector<BlockParameters> bps = {bp}; FilePreamble fp(bps); std::string before = lib::dump(fp);
+            model::Exporter M({model::from(bp)}); std::vector<std::string> outs; size_t reported = 0;
+            { CdnsExporter e(fp, MemSink{&outs}, CborOutputCompression::NO_COMPRESSION);
+              GenericQueryResponse q1 = P.qr[1]; q1.asn = kind == 0 ? nonperiodic(pad, 8) : std::string("x"); q1.ts = Timestamp(1000, 0);
+              GenericQueryResponse q2 = P.qr[4]; q2.ts = Timestamp(6000, 1); q2.query_size = (std::size_t)1 << 40; q2.response_size = (std::size_t)UINT64_MAX; q2.round_trip_time = INT64_MIN; q2.query_name = nonperiodic(300, 9);
+              GenericQueryResponse q3 = P.qr[0]; q3.ts = Timestamp(1000 + 4295, 0);   // offset just above 2^32 ticks at the default rate
+              for (auto* q : {&q1, &q2, &q3}) { reported += e.buffer_qr(*q); M.buffer_qr(*q, nullptr); }
+              reported += e.buffer_aec(P.aec[1]); M.buffer_aec(P.aec[1], nullptr); reported += e.buffer_mm(P.mm[0]); M.buffer_mm(P.mm[0], nullptr);
+              reported += e.write_block(); M.write_block(); }
+            reported += 1; const std::string& bytes = outs.at(0); R.count("traces"); R.count("nontrivial");
+            std::string expect = "P{" + M.outs[0].preamble + "}"; for (auto& b : M.outs[0].blocks) expect += "|B{" + b.dump() + "}"; expect += "|eof";
+            if (bytes.size() != reported) R.violation("align|byte-count", "padding " + std::to_string(pad) + ": calls reported " + std::to_string(reported) + " bytes, output has " + std::to_string(bytes.size()), rep);
+            std::string rd; try { rd = lib::file_dump(ref::read_file(bytes)); } catch (std::exception& e) { rd = std::string("INVALID: ") + e.what(); }
+            std::string ld = lib::file_dump(lib::read_bytes(bytes));
+            auto where = [&](const std::string& g) { size_t p = 0; while (p < g.size() && p < expect.size() && g[p] == expect[p]) p++; size_t eq = expect.rfind('=', p), sc = eq == std::string::npos ? eq : expect.find_last_of(";{[|", eq); return (eq != std::string::npos && sc != std::string::npos && eq > sc) ? expect.substr(sc + 1, eq - sc - 1) : std::string("?"); };
+            if (rd != expect) R.violation(std::string("align|") + (rd.rfind("INVALID", 0) == 0 ? "invalid-output" : "independent-reader|" + where(rd)), "padding " + std::to_string(pad) + (kind ? " (preamble text)" : " (record text)") + ": file differs from what was written: " + (rd.rfind("INVALID", 0) == 0 ? rd.substr(0, 120) : "member " + where(rd)), rep);
+            if (ld != expect) R.violation("align|library-reader|" + where(ld), "padding " + std::to_string(pad) + ": CdnsReader returns something else than was written (member " + where(ld) + ")", rep);
+            R.outcome("kind" + std::to_string(kind) + ":fill" + std::to_string(bytes.size() / 2048));
+        };
+        if (!a.replay.empty()) { std::string s = slurp(a.replay); int k; unsigned long pd; if (sscanf(s.c_str(), "kind=%d;pad=%lu", &k, &pd) != 2) return done(2);
+            Pool rp(1, 60); rp.run(1, [&](uint64_t, Result& R) { run_pad(k, pd, R); }, [&](uint64_t, const std::string& d, Result& R) { R.violation("align|" + crash_key(d), d.substr(0, 1500), s); }, total); return done(total.viol.empty() ? 0 : 1); }
+        size_t NP = T ? 4200 : 2101; Pool pool(a.jobs, 120);
+        pool.run(2 * ((NP + 31) / 32) + 1, [&](uint64_t ti, Result& R) { if (ti == 2 * ((NP + 31) / 32)) { for (size_t pad : {(size_t)4095, (size_t)4096, (size_t)4097, (size_t)6000, (size_t)8192, (size_t)20000, (size_t)70000}) for (int k = 0; k < 2; k++) run_pad(k, pad, R); return; }
+            int kind = ti & 1; size_t lo = (ti / 2) * 32; for (size_t pad = lo; pad < std::min(NP, lo + 32); pad++) run_pad(kind, pad, R); if (ti % 23 == 0) R.sample("kind=" + std::to_string(kind) + ";pad=" + std::to_string(lo) + ".." + std::to_string(lo + 31)); },
+                 [&](uint64_t, const std::string& d, Result& R) { R.violation("align|" + crash_key(d), d.substr(0, 1500), pool.last_note); }, total);
+        total.n["evaluations"] = total.n["traces"];
+        return done(0);
+    }
     fprintf(stderr, "unknown mode\n"); return done(2);
 }
